@@ -58,6 +58,13 @@ def grow_cases(rng, caps, per_cap):
             pool = draw_pool(rng, w)
             draws = [rng.choice(pool) for _ in range(2 * nw + 2)]
             out.append("%d %d %d %s %s" % (k, c0, initial, ops, ",".join(map(str, draws))))
+    # re-writing a key that is already cached is a write like any other for the trigger: directories
+    # over capacity, period <= 1, the first writes hit the pre-planted key
+    for k in (0, 1, 2, 3, 5):
+        for ops in ("PPP", "PpP", "SPs", "PSP"):
+            pool = draw_pool(rng, scale(k // 3))
+            draws = [rng.choice(pool) for _ in range(10)]
+            out.append("%d %d %d %s %s" % (k, rng.choice([0, MAX]), k + 4, ops, ",".join(map(str, draws))))
     return out
 
 
